@@ -31,6 +31,13 @@ impl Server {
     }
     pub fn try_bind(addr: &SocketAddr) -> std::io::Result<hyper::server::Builder<SimIncoming>> {
         let listener = tokio::net::TcpListener::sim_bind_proxy(*addr)?;
-        Ok(hyper::Server::builder(SimIncoming { listener }))
+        let mut b = hyper::Server::builder(SimIncoming { listener });
+        // hyper's write buffer is a tuning knob: with the default (about 400 KB) no answer of a simulated run ever meets
+        // back-pressure inside the server
+        let n = tokio::sim::with(|w| w.cfg.api_buf);
+        if n >= 8192 {
+            b = b.http1_max_buf_size(n);
+        }
+        Ok(b)
     }
 }
